@@ -88,7 +88,9 @@ func Run(r *ev.Run) {
 	sweepLen, bfsDepth := 2, 3
 	budget := 150 * time.Second
 	if thorough {
-		spaces = []fileSpace{{full, 4}, {core, 5}}
+		// (sequences of four items over the full alphabet - 48^4 x styles - do not fit the budget:
+		// the thorough tier deepens the core alphabet and the edit searches)
+		spaces = []fileSpace{{full, 3}, {core, 5}}
 		sweepLen, bfsDepth = 2, 3
 		budget = 18 * time.Minute
 	}
